@@ -489,5 +489,141 @@ class JsDuRenderer(_DuMixin, JsRenderer):
         return "\n".join(self.lines) + "\n"
 
 
-RENDERERS = {"python": PyRenderer, "javascript": JsRenderer}
+class JavaRenderer(JsRenderer):
+    ext = "java"
+    lang = "java"
+
+    def __init__(self, ident="0"):
+        JsRenderer.__init__(self)
+        self.ident = ident
+
+    def cond(self, i):
+        return f"d[{i}] != 0"
+
+    def node(self, ind, n):
+        k = n[0]
+        if k == "if":
+            self.emit(ind, f"if ({self.cond(n[1])}) {{")
+            self.block(ind + 1, n[2])
+            if n[3] is not None:
+                self.emit(ind, "} else {")
+                self.block(ind + 1, n[3])
+            self.emit(ind, "}")
+        elif k == "while":
+            c = f"k{n[1]}"
+            self.emit(ind, f"int {c} = 0;")
+            self.emit(ind, f"while ({c} < d[{n[1]}]) {{")
+            self.emit(ind + 1, f"{c} = {c} + 1;")
+            self.block(ind + 1, n[2])
+            self.emit(ind, "}")
+        elif k == "for":
+            j = f"j{n[1]}"
+            self.emit(ind, f"for (int {j} = 0; {j} < d[{n[1]}]; {j}++) {{")
+            self.block(ind + 1, n[2])
+            self.emit(ind, "}")
+        elif k == "dowhile":
+            c = f"k{n[1]}"
+            self.emit(ind, f"int {c} = 0;")
+            self.emit(ind, "do {")
+            self.emit(ind + 1, f"{c} = {c} + 1;")
+            self.block(ind + 1, n[2])
+            self.emit(ind, f"}} while ({c} < d[{n[1]}]);")
+        elif k == "return":
+            self.emit(ind, f"if (d.length >= 0) {{ return {self.const()}; }}")      # javac rejects statically unreachable code
+        elif k in ("break", "continue"):
+            self.emit(ind, f"if (d.length >= 0) {{ {k}; }}")
+        elif k == "try":
+            self.emit(ind, "try {")
+            pos = (n[1] * 7 + len(n[2])) % (len(n[2]) + 1)
+            if any(x[0] in ("break", "continue", "return") for x in n[2][:pos]):
+                pos = 0
+            for x in n[2][:pos]:
+                self.node(ind + 1, x)
+            self.emit(ind + 1, f"if ({self.cond(n[1])}) {{")
+            self.emit(ind + 2, 'throw new RuntimeException("e");')
+            self.emit(ind + 1, "}")
+            for x in n[2][pos:]:
+                self.node(ind + 1, x)
+            self.emit(ind, "} catch (RuntimeException ex) {")
+            self.block(ind + 1, n[3])
+            if n[5] is not None:
+                self.emit(ind, "} finally {")
+                self.block(ind + 1, n[5])
+            self.emit(ind, "}")
+        elif k == "switch":
+            self.emit(ind, f"switch (d[{n[1]}]) {{")
+            for ci, body in enumerate(n[2]):
+                self.emit(ind + 1, f"case {ci}:")
+                self.block(ind + 2, body)
+                if n[4][ci]:
+                    self.emit(ind + 2, "if (d.length >= 0) { break; }")
+            if n[3] is not None:
+                self.emit(ind + 1, "default:")
+                self.block(ind + 2, n[3])
+            self.emit(ind, "}")
+        elif k in ("func", "class", "forin"):
+            self.emit(ind, f"out({self.const()});")
+        else:
+            JsRenderer.node(self, ind, n)
+
+    def render(self, skel):
+        self.emit(0, f"public class Sk{self.ident} {{")
+        self.emit(1, "static void out(int k) { System.out.println(k); }")
+        self.emit(1, "static int main(int[] d) {")
+        self.block(2, skel.body)
+        self.emit(2, "return 0;")
+        self.emit(1, "}")
+        self.emit(0, "}")
+        return "\n".join(self.lines) + "\n"
+
+    def conv_vector(self, v, skel):
+        return list(v)
+
+
+class CRenderer(JavaRenderer):
+    ext = "c"
+    lang = "c"
+
+    def cond(self, i):
+        return f"d[{i}]"
+
+    def node(self, ind, n):
+        k = n[0]
+        if k == "return":
+            self.emit(ind, f"return {self.const()};")
+        elif k in ("break", "continue"):
+            self.emit(ind, k + ";")
+        elif k == "try":
+            # no exceptions in C: the body and the handler become a plain if/else on the decision
+            self.emit(ind, f"if (!d[{n[1]}]) {{")
+            self.block(ind + 1, n[2])
+            self.emit(ind, "} else {")
+            self.block(ind + 1, n[3])
+            self.emit(ind, "}")
+            if n[5] is not None:
+                self.block(ind, n[5])
+        elif k == "switch":
+            self.emit(ind, f"switch (d[{n[1]}]) {{")
+            for ci, body in enumerate(n[2]):
+                self.emit(ind + 1, f"case {ci}:")
+                self.block(ind + 2, body)
+                if n[4][ci] and not (body and body[-1][0] in ("return", "continue", "break")):
+                    self.emit(ind + 2, "break;")
+            if n[3] is not None:
+                self.emit(ind + 1, "default:")
+                self.block(ind + 2, n[3])
+            self.emit(ind, "}")
+        else:
+            JavaRenderer.node(self, ind, n)
+
+    def render(self, skel):
+        self.emit(0, "void out(int k);")
+        self.emit(0, "int main_(int* d) {")
+        self.block(1, skel.body)
+        self.emit(1, "return 0;")
+        self.emit(0, "}")
+        return "\n".join(self.lines) + "\n"
+
+
+RENDERERS = {"python": PyRenderer, "javascript": JsRenderer, "java": JavaRenderer, "c": CRenderer}
 DU_RENDERERS = {"python": PyDuRenderer, "javascript": JsDuRenderer}
